@@ -14,6 +14,7 @@ import (
 
 // TCall is one recorded transport call.
 type TCall struct {
+	Seq     int64
 	Op      string // open, close, pause, resume, cleanup, shutdown
 	Chid    datatransfer.ChannelID
 	Peer    peer.ID
@@ -48,6 +49,7 @@ func (t *RecTransport) rec(c TCall) error {
 	if c.Msg != nil {
 		c.Msg = Recode(c.Msg)
 	}
+	c.Seq = NextSeq()
 	t.Calls = append(t.Calls, c)
 	if t.Fail != nil {
 		return t.Fail(c)
